@@ -77,7 +77,8 @@ cpdef bint check_working_hours_fast(
 
     # Check cross-midnight from previous day
     if check_cross_midnight:
-        prev_weekday = (weekday - 1) % 7
+        # (weekday - 1) % 7 is -1 for Monday under C division semantics (cdivision=True)
+        prev_weekday = (weekday + 6) % 7
         if prev_weekday in hours_dict:
             intervals = hours_dict[prev_weekday]
             for i in range(len(intervals)):
